@@ -9,7 +9,7 @@
    whatever its phase allows: connect / acquire a slot / one client action incl. one next()/exchange() of an open
    stream / disconnect).  A connection's stream state (cursor, queue, liveness) is part of its private state [st]. *)
 From Coq Require Import List NArith ZArith Bool Arith Lia.
-From VGI Require Import Corr M_Wire M_ConnIso L_ConnIso L_ConnIsoWire.
+From VGI Require Import Corr M_Wire M_ConnIso L_ConnIso L_ConnIsoWire L_ConnIsoLive.
 Import ListNotations.
 Open Scope nat_scope.
 
@@ -94,6 +94,28 @@ Proof.
     apply (sem_run cstate cfin clost cstep m sched), sem_init.
 Qed.
 Print Assumptions C41_waiting_not_dropped.
+
+(* Nobody is ever stuck: whatever has happened so far (any schedule), the run can be continued so that ALL
+   connections are Done (max_connections <> 0) -- and by C41_isolated each of them has then observed its complete
+   solo traces.  Witness: let the connections inside serve() finish (no slot needed), then serve the waiting ones
+   one after the other. *)
+Theorem C41_all_can_complete : forall (maxc : option nat) (scripts : list (list call)) (sched : list nat),
+  maxc <> Some 0 ->
+  exists sched', let g := crun (sched ++ sched') (cinit_sys maxc scripts) in
+    all_done g = true
+    /\ forall i c cs, nth_error (conns g) i = Some c -> nth_error scripts i = Some cs -> ctrace (st c) = seq_calls cs.
+Proof.
+  intros maxc scripts sched Hm.
+  destruct (can_complete cstate cfin clost cstep maxc (map cinit scripts) sched Hm) as [s' H].
+  { intros s0 Hs. apply in_map_iff in Hs as (cs & <- & _). destruct (solo_is_seq_calls cs) as (k & F & _). exists k; exact F. }
+  exists s'. cbn zeta. split; [exact H|].
+  intros i c cs Hc Hs.
+  destruct (C41_isolated maxc scripts (sched ++ s') i c Hc) as (cs' & k & Hs' & _ & _ & Hd).
+  rewrite Hs in Hs'. inversion Hs'; subst cs'.
+  apply Hd. unfold all_done in H. rewrite forallb_forall in H.
+  specialize (H c (nth_error_In _ _ Hc)). destruct (ph c); try discriminate; reflexivity.
+Qed.
+Print Assumptions C41_all_can_complete.
 
 (* ------------------------------------------------------------------ non-vacuity *)
 Definition ex_ok : step := {| slogs := []; emit := Some {| rows := 1; tag := 0; meta := [] |}; fin := false; sraise := None |}.
